@@ -20,7 +20,7 @@ from vlib.values import NAMES, Tagged, canon, val
 PROPERTY_ID = "C41"
 LEVEL = "exploration"
 RULE = (
-    "Four generated checks. from_future: an asyncio future (fresh event loop per case, driven by a bounded number of "
+    "Four generated checks and one enumerated thread-race check. from_future: an asyncio future (fresh event loop per case, driven by a bounded number of "
     "zero-delay loop iterations, closed afterwards) or a concurrent.futures.Future, wrapped by from_future or start_async, "
     "1-2 subscribers, resolved before or after subscription with a result from V / an exception / cancellation, or the first "
     "subscriber unsubscribes first; oracle: [N(result), C] / [E(that exception)] / [E(CancelledError)] / nothing and "
@@ -34,6 +34,17 @@ RULE = (
     "unsubscribing never / immediately / after 0..2 ticks; oracle: func called exactly once with the arguments whatever the "
     "observers do, every probe still subscribed when the result exists sees [N(result), C] (or [E(exc)] if func raised), a "
     "probe that unsubscribed before the function ran sees nothing. "
+    "start_race (Engine DET, vlib/det.py: line-level yield points, cooperative locks, objects created after patching): "
+    "start(func, S) / to_async(func, S)(*args) with S a scheduler that hands the scheduled action to another thread (as the "
+    "default TimeoutScheduler does); thread F runs that action (func, then the result is published and completed, or the "
+    "error), thread S subscribes a recorder to the returned observable, 0/1 observer subscribed beforehand, either thread "
+    "scheduled first, func returning or raising; every schedule with <=2 (quick) / <=3 (thorough) preemptions placed where "
+    "the preempted thread is about to execute reactivex/subject/{subject,asyncsubject,innersubscription}.py or "
+    "reactivex/observer/observer.py (the only code touching state shared by the two threads) is run; oracle: in EVERY "
+    "schedule func is called once, the racing recorder, the earlier observer and an observer subscribed after both threads "
+    "ended each hold exactly [N(result), C] (or [E(that exception)], by identity), no deadlock/exception; this is one "
+    "producer completing while a consumer subscribes (legal use), not overlapping producer calls; non-trivial = the two "
+    "calls overlapped in some schedule. "
     "from_callback: func(*args, cb) with 0..2 leading args, cb invoked with 0..4 arguments synchronously or at a later "
     "virtual tick, without mapper / with mapper / with raising mapper, 1-2 subscriptions; oracle: exactly [N(v), C] at the "
     "callback's tick with v = the argument list (the bare argument when there is exactly one; None/empty for none) or the "
@@ -46,6 +57,7 @@ ASSUMPTIONS = [
     "asyncio loops are created per case, driven only by run_until_complete over zero-delay work, and closed; helper threads started by the default scheduler are joined before the case returns",
     "to_future is given asyncio futures and, through future_ctor, concurrent.futures.Future (same set_result/set_exception/cancelled protocol); from_future is given both",
     "a future cancelled by unsubscription is judged by future.cancelled() only",
+    "start_race: the capture scheduler stands for any scheduler that runs the function on a thread other than the consumer's; the search is bounded (2 threads, <=2/<=3 preemptions, preemption points restricted to the subject/observer files), every explored schedule is a real schedule and the oracle is the statement's single outcome, so the bound can only miss, not false-alarm; CPython-GIL atomicity of single lines as documented in vlib/det.py",
 ]
 
 BLOCK_LIMIT_S = 20.0
@@ -449,6 +461,146 @@ def _start_cases(draw):
 
 
 # ---------------------------------------------------------------------------------------
+# start / to_async: a consumer subscribing on one thread WHILE the function finishes on another (Engine DET)
+
+
+class _CaptureScheduler:
+    """Keeps the scheduled action so that a chosen logical thread can run it (stands for any scheduler that runs the
+    function on a thread other than the consumer's, which the default TimeoutScheduler does)."""
+
+    def __init__(self):
+        self.actions = []
+
+    def schedule(self, action, state=None):
+        self.actions.append((action, state))
+
+
+def _run_start_race(case):
+    """case = {"form": "start"|"to_async", "args": [names], "raises": bool, "pre": 0|1, "first": "sub"|"func", "K": k}.
+    Thread F runs the action that to_async/start scheduled (func, then result published and completed); thread S
+    subscribes a recorder to the returned observable.  Every schedule with <= K preemptions is run."""
+    from vlib import det
+    from vlib.hist_subjects import _fresh_thread_state
+
+    form, raises, pre, K = case["form"], case["raises"], case.get("pre", 0), case["K"]
+    args = [val(n) for n in case["args"]]
+    if form == "start" and args:
+        raise HarnessError("start takes no args")
+    err = Tagged("func-error")
+    kw = dict(max_steps=6000, reuse_threads=True, wall_timeout=30.0)
+
+    def factory():
+        _fresh_thread_state()
+        calls = []
+
+        def func(*a):
+            calls.append(a)
+            if raises:
+                raise err
+            return ("r",) + tuple(a)
+
+        sched = _CaptureScheduler()
+        obs = reactivex.start(func, sched) if form == "start" else reactivex.to_async(func, sched)(*args)
+        if len(sched.actions) != 1 or calls:
+            raise HarnessError(f"start_race: expected one pending scheduled action, got {len(sched.actions)} (calls={len(calls)})")
+        pres = [Rec() for _ in range(pre)]
+        for r in pres:
+            r.subscribe(obs)
+        rec = Rec()
+
+        def tf():
+            action, state = sched.actions[0]
+            action(sched, state)
+
+        def ts():
+            rec.subscribe(obs)
+
+        return ([tf, ts] if case.get("first") == "func" else [ts, tf]), {"rec": rec, "pres": pres, "calls": calls, "obs": obs}
+
+    exp = [["E", canon(err)]] if raises else [["N", canon(("r",) + tuple(args))], ["C"]]
+
+    def judge(res, ctx):
+        if res.deadlock:
+            return "deadlock", f"{res.deadlock}"
+        if res.exceptions:
+            return "exception", f"{res.exceptions}"
+        if len(ctx["calls"]) != 1 or list(ctx["calls"][0]) != args:
+            return "call-count", f"func calls {ctx['calls']!r}"
+        if ctx["rec"].shape() != exp:
+            return "racing-subscriber", f"the observer that subscribed while the function was finishing received {ctx['rec'].shape()}, expected {exp}"
+        if raises and ctx["rec"].events[0][1] is not err:
+            return "racing-subscriber-error-identity", f"{ctx['rec'].events!r}"
+        for r in ctx["pres"]:
+            if r.shape() != exp:
+                return "earlier-subscriber", f"observer subscribed before the race received {r.shape()}, expected {exp}"
+        late = Rec()
+        late.subscribe(ctx["obs"])
+        if late.shape() != exp:
+            return "late-subscriber", f"observer subscribed after the race received {late.shape()}, expected {exp}"
+        return None
+
+    runs = overlap = incomplete = 0
+    with det.patched():
+        for s, res, ctx in _explore_shared(det, factory, K, kw):
+            if runs == 0:
+                res_b, _ = det.run_checked(factory, s, **kw)  # determinism of the base run
+                if res_b.fingerprint() != res.fingerprint():
+                    raise HarnessError("start_race: base run not deterministic")
+            runs += 1
+            overlap += res.overlapped()
+            if not res.complete and not res.deadlock:
+                incomplete += 1
+                continue
+            bad = judge(res, ctx)
+            if bad is not None:
+                res2, ctx2 = det.run_checked(factory, s, **kw)
+                bad2 = judge(res2, ctx2)
+                if bad2 is None or bad2[0] != bad[0]:
+                    raise HarnessError(f"start_race: verdict not reproducible for schedule {s}: {bad} vs {bad2}")
+                return FAIL(f"start_race:{bad[0]}" + ("|error" if raises else ""), f"{bad[1]}; schedule={s}; {res2.describe()}; case={case}", classes=["det"])
+    if incomplete:
+        return SKIP("budget")
+    cl = ["det", form, f"K{K}", "first:" + str(case.get("first")), f"pre={pre}"] + (["func-raised"] if raises else []) + [f"runs>={b}" for b in (10, 100, 1000) if runs >= b]
+    return OK(overlap > 0, cl)
+
+
+# files whose code reads/writes the state shared by the two threads (the AsyncSubject behind to_async/start); everything
+# else either thread executes (building its own subscription chain, calling func) works on thread-private objects
+_SHARED_FILES = ("subject.py", "asyncsubject.py", "innersubscription.py", "observer.py")
+
+
+def _explore_shared(det, factory, K, kw):
+    """det.explore (breadth-first, all schedules with <= K preemptions), except that a preemption is only placed where
+    the thread being preempted is about to execute a line of _SHARED_FILES.  Every schedule run is a real schedule; the
+    restriction only bounds the search (the full subscribe path is ~170 line steps, nearly all of them thread-private)."""
+    c0 = det.clock_us()
+    level = [[]]
+    for k in range(K + 1):
+        nxt = []
+        for sched in level:
+            det.set_clock_us(c0)
+            threads, ctx = factory()
+            res = det.run_program(threads, sched, **kw)
+            yield sched, res, ctx
+            if k < K:
+                after = sched[-1][0] if sched else -1
+                for p in det.next_preemptions(res, after):
+                    if str(res.labels[p[0]]).split(":")[0] in _SHARED_FILES:
+                        nxt.append(sched + [p])
+        level = nxt
+
+
+def _start_race_cases(tier):
+    K = 2 if tier == "quick" else 3
+    forms = [("start", []), ("to_async", []), ("to_async", ["i1", "none"])]
+    for form, args in forms:
+        for raises in (False, True):
+            for pre in (0, 1):
+                for first in ("sub", "func"):
+                    yield {"form": form, "args": args, "raises": raises, "pre": pre, "first": first, "K": K}
+
+
+# ---------------------------------------------------------------------------------------
 # from_callback
 
 
@@ -579,6 +731,7 @@ def checks(tier):
         Check("from_future", _run_from_future, strategy=_ff, examples={"quick": 1000, "thorough": 16 * 5000}, shards={"quick": 2, "thorough": 16}),
         Check("blocking", _run_blocking, strategy=_blocking, examples={"quick": 1500, "thorough": 16 * 5000}, shards={"quick": 2, "thorough": 16}),
         Check("start", _run_start, strategy=_start_cases(), examples={"quick": 800, "thorough": 16 * 5000}, shards={"quick": 2, "thorough": 16}),
+        Check("start_race", _run_start_race, cases=_start_race_cases, shards={"quick": 4, "thorough": 16}, exhaustive=True),
         Check("from_callback", _run_from_callback, strategy=_cb_main(), examples={"quick": 1500, "thorough": 16 * 5000}, shards={"quick": 2, "thorough": 16}),
         Check("from_callback_zero", _run_from_callback, strategy=_cb_zero, examples={"quick": 40, "thorough": 16 * 100}, shards={"quick": 1, "thorough": 16}),
     ]
